@@ -72,7 +72,10 @@ CLAIMED['C14'] = dict(
          'in the else clause, the finally body in a finally clause (one '
          'site), the handler body under try/finally without except; '
          'dtml-raise has no normal exit; handlers are searched first-match '
-         'in written order with base-class recursion. Not decided: class '
+         'in written order (one loop over the handler list; for all 8 '
+         'truth assignments of exact-name / bare / base-class match the '
+         'loop body returns the block iff one holds) with base-class '
+         'recursion. Not decided: class '
          'matching on concrete hierarchies, values of error_type/value.',
     ref='4 C14',
     note='values called through the namespace are assumed not to raise '
@@ -159,7 +162,8 @@ CLAIMED['C13'] = dict(
          'to the same result -- None and failures to the smallest key, '
          'false values to themselves, callables to their result -- decided '
          'by scenario interpretation, plus an AST twin comparison when the '
-         'twin shape is present; asc/desc map to +1/-1, anything else raises, the '
+         'twin shape is present; asc/desc map to +1/-1, anything else raises '
+         '(scenario interpretation of the code that reads the direction word), the '
          'comparator multiplies. Not decided: the order produced for '
          'concrete key values, /nocase and locale comparison results.',
     ref='4 C13, App. B',
@@ -283,8 +287,9 @@ CLAIMED['C10'] = dict(
 CLAIMED['C11'] = dict(
     technique='linear normal forms of opt() arguments, published keys and '
               'the formula sites inside opt; parameter-read and flag-guard '
-              'queries',
-    text='Narrow: at every site the next batch is requested at '
+              'queries; abstract interpretation of opt() in the zone '
+              '(difference-bound) domain with element probes as guards',
+    text='Partial: at every site the next batch is requested at '
          'end+1-overlap and the previous one up to start-1+overlap with the '
          'same size/orphan/sequence; *-start-index/-end-index/-size follow '
          'one formula at all sites; the five parameters are read through '
@@ -292,12 +297,19 @@ CLAIMED['C11'] = dict(
          'last / first, the displayed range is range(start-1, end); inside '
          'opt the formula sites (end = start+size-1, start = end+1-size, '
          'size = end+1-start, probes at end+orphan-1 / start-1 / end-1, '
-         'end >= start) match the documented window. Not decided: the '
-         'window arithmetic of opt as a whole over the 5-dimensional '
-         'parameter space (tiling, termination of following next links).',
-    ref='4 C11',
-    note='linear forms only; a non-linear rewrite is an ANALYSIS-ERROR, not '
-         'a pass')
+         'end >= start) match the documented window; and, for every '
+         'non-empty sequence and orphan >= 0, every return path of opt is '
+         'proved (zone abstract interpretation; a successful probe '
+         'sequence[i] gives i < length, a failed one i >= length) to '
+         'deliver start >= 1, start <= end, end <= length and size >= 1 -- '
+         'the one path on which end <= length cannot be established (an '
+         'explicit end beyond the length is not cut back: IndexError when '
+         'the batch is rendered) is a genuine defect listed as a known '
+         'finding. Not decided: the orphan / overlap tiling law and the '
+         'termination of following next links.',
+    ref='4 C11, 9.2, 9.3',
+    note='zone domain over start/end/size/orphan/length; an un-modelled '
+         'update on a failing path is an ANALYSIS-ERROR, not a pass')
 CLAIMED['C01'] = dict(
     technique='regex language inclusion (subset construction); '
               'who-may-call query with origin pairing; provenance '
@@ -325,9 +337,12 @@ CLAIMED['C07'] = dict(
          '(tagre, parseTag, SubTemplate, varExtra, errQuote, __str__) and '
          'UI methods -- parse, parse_block, parse_close, _parseTag, '
          'skip_eol, cook, __call__, commands have one definition; the two '
-         'tag readers return the same tuples, raise the same errors and '
-         'test the same conditions up to the end-tag marker; every return '
-         'path of the SGML scanner defines 0/end/name/args and the offset '
+         'tag readers are compared by symbolic path enumeration: for every '
+         'jointly satisfiable pair of paths (atoms = their leaf tests, the '
+         'end-tag marker and a failing command lookup) both give the same '
+         'result tuple or error; every return path of the SGML scanner, '
+         'through its helper methods, definitely assigns the groups '
+         '0/end/name/args and the offset '
          'the reader uses, the EPFS pattern names the groups its reader '
          'reads; entities compile to var tags with html_quote / split '
          'modifiers; SGML var tags carry the plain format. Not decided: '
